@@ -1,4 +1,11 @@
-(** C06, part 4: [summary DATE] selects exactly one calendar day, whatever the zone. *)
+(** C06, part 4: [summary DATE] selects exactly one calendar day, whatever the zone.
+
+    Since fix 4fa5d57 of the program the keyword [today] resolves to "now" UNCHANGED (it used to be
+    [now.Local()]): with --today D the argument of [summary today] is midnight UTC of D with offset 0
+    in every process zone, so its window is the UTC day D for EVERY zone offset, without any bound.
+    The lemmas about a midnight re-labelled with a fixed zone offset ([window_of_midnight_in_zone]) are
+    kept as general facts about windows; they hold for every fixed offset too (a fixed-offset zone has
+    no 25-hour day: the defect repaired by the fix is not visible in them). *)
 From Coq Require Import Lia ZifyBool.
 From HP Require Import Base.Bytes Base.Num Model.Dates Model.Reporters Model.Cli Spec.PeriodSpec Proofs.PeriodInterval.
 Open Scope Z_scope.
@@ -35,15 +42,20 @@ Proof. intros [[y m] d]. reflexivity. Qed.
 Lemma off_time_of_civil : forall c, off (time_of_civil c) = 0.
 Proof. intros [[y m] d]. reflexivity. Qed.
 
-(** [summary today] with --today D, in any zone *)
-Theorem summary_selects_day_any_tz : forall D tz d, tz_ok tz ->
+(** general lemma about windows: a UTC midnight re-labelled with a fixed zone offset, of any size (this
+    was the argument of [summary today] under --today D before fix 4fa5d57; no longer what the program
+    does): the window is [D*day - (tz mod day), + day) and holds the midnight of D and no other *)
+Lemma window_of_midnight_in_zone : forall D tz d,
   let t := to_local (time_of_civil D) tz in
   (day_begin t <= inst (time_of_civil d) <= day_end t <-> day_number d = day_number D).
 Proof.
-  intros D tz d Htz t. rewrite inst_time_of_civil.
-  rewrite (summary_day_general t (day_number d)) by exact Htz.
-  unfold t. rewrite local_day_of_midnight by exact Htz. cbn [off to_local].
-  destruct (tz <? 0); lia.
+  intros D tz d t. rewrite !inst_time_of_civil.
+  unfold day_end, day_begin, local_day, t. cbn [inst off to_local]. rewrite inst_time_of_civil.
+  unfold ns_per_day, ns_per_sec.
+  remember (day_number D) as n. remember (day_number d) as k.
+  pose proof (Z.div_mod (n * 86400000000000 + tz * 1000000000) 86400000000000 ltac:(lia)) as Hdm.
+  pose proof (Z.mod_pos_bound (n * 86400000000000 + tz * 1000000000) 86400000000000 ltac:(lia)) as Hmb.
+  remember ((n * 86400000000000 + tz * 1000000000) / 86400000000000) as q. lia.
 Qed.
 
 (** [summary DATE] with an explicit date in the layout: offset 0 *)
@@ -53,7 +65,16 @@ Theorem summary_selects_explicit_day : forall D d,
 Proof.
   intros D d t.
   assert (Ht : t = to_local (time_of_civil D) 0) by (destruct D as [[y m] dd]; reflexivity).
-  rewrite Ht. apply summary_selects_day_any_tz. unfold tz_ok. lia.
+  rewrite Ht. apply window_of_midnight_in_zone.
+Qed.
+
+(** [summary today] with --today D, in EVERY zone (any offset whatsoever, no bound): [today] is the
+    date as given, the process zone does not enter *)
+Theorem summary_selects_day_any_tz : forall w tz toks D d,
+  exists t, time_from_string (with_tz w tz) (time_of_civil D) toks (b "today") = inr t /\
+            (day_begin t <= inst (time_of_civil d) <= day_end t <-> day_number d = day_number D).
+Proof.
+  intros w tz toks D d. exists (time_of_civil D). split; [reflexivity|apply summary_selects_explicit_day].
 Qed.
 
 (** [summary yesterday] (also last7, last30: [n] days back) with --today D: the zone does not enter at all *)
@@ -82,12 +103,12 @@ Lemma in_interval_summary : forall t h,
   in_interval (Some (summary_begin t)) (Some (summary_end t)) h = true <-> day_begin t <= inst h <= day_end t.
 Proof. intros t h. rewrite in_interval_both. reflexivity. Qed.
 
-Theorem summary_filter_any_tz : forall D tz d, tz_ok tz ->
+Lemma window_filter_midnight_in_zone : forall D tz d,
   let t := to_local (time_of_civil D) tz in
   in_interval (Some (summary_begin t)) (Some (summary_end t)) (time_of_civil d) = Z.eqb (day_number d) (day_number D).
 Proof.
-  intros D tz d Htz t.
-  pose proof (summary_selects_day_any_tz D tz d Htz) as H. cbv zeta in H. fold t in H.
+  intros D tz d t.
+  pose proof (window_of_midnight_in_zone D tz d) as H. cbv zeta in H. fold t in H.
   rewrite <- in_interval_summary in H.
   destruct (in_interval _ _ _); destruct (Z.eqb_spec (day_number d) (day_number D)) as [E|E]; try reflexivity.
   - exfalso. apply E. apply H. reflexivity.
@@ -112,35 +133,56 @@ Theorem summary_filter_explicit : forall D d,
 Proof.
   intros D d t.
   assert (Ht : t = to_local (time_of_civil D) 0) by (destruct D as [[y m] dd]; reflexivity).
-  rewrite Ht. apply summary_filter_any_tz. unfold tz_ok. lia.
+  rewrite Ht. apply window_filter_midnight_in_zone.
 Qed.
 
-(** FINDING (zone dependence without --today).  When "now" is the wall clock and the process
-    zone is west of UTC, [summary today] selects the UTC date that FOLLOWS the local date:
-    the local day [00:00, 24:00) in a zone at UTC-5 is [05:00, 29:00) UTC, and the only UTC
-    midnight in it is tomorrow's.  Log headings are parsed as UTC midnights, so the record
-    printed is the one dated tomorrow. *)
-Theorem summary_today_west_of_utc_selects_next_day : forall now tz d, -86400 < tz < 0 ->
-  let t := to_local now tz in
-  (day_begin t <= inst (time_of_civil d) <= day_end t <-> day_number d = local_day t + 1).
+(** [summary today] with --today D as the walk sees it, in EVERY zone *)
+Theorem summary_filter_any_tz : forall w tz toks D d,
+  exists t, time_from_string (with_tz w tz) (time_of_civil D) toks (b "today") = inr t /\
+            in_interval (Some (summary_begin t)) (Some (summary_end t)) (time_of_civil d)
+            = Z.eqb (day_number d) (day_number D).
 Proof.
-  intros now tz d Htz t. rewrite inst_time_of_civil.
-  rewrite (summary_day_general t (day_number d)) by (unfold tz_ok, t; cbn [off to_local]; lia).
-  unfold t at 2. cbn [off to_local].
-  destruct (Z.ltb_spec tz 0); [reflexivity|lia].
+  intros w tz toks D d. exists (time_of_civil D). split; [reflexivity|apply summary_filter_explicit].
 Qed.
 
-Theorem summary_today_east_of_utc_selects_local_day : forall now tz d, 0 <= tz < 86400 ->
-  let t := to_local now tz in
-  (day_begin t <= inst (time_of_civil d) <= day_end t <-> day_number d = local_day t).
+(** FINDING (zone dependence without --today).  When "now" is the wall clock ([time.Now()], which
+    carries the process zone: [off now] is the zone offset) and the process zone is west of UTC,
+    [summary today] selects the UTC date that FOLLOWS the local date: the local day [00:00, 24:00)
+    in a zone at UTC-5 is [05:00, 29:00) UTC, and the only UTC midnight in it is tomorrow's.  Log
+    headings are parsed as UTC midnights, so the record printed is the one dated tomorrow.
+    ([today] resolves to [now] itself, so the statements are about [now]; nothing changed here with
+    fix 4fa5d57, [time.Now()] being local already.) *)
+Theorem summary_today_west_of_utc_selects_next_day : forall now d, -86400 < off now < 0 ->
+  (day_begin now <= inst (time_of_civil d) <= day_end now <-> day_number d = local_day now + 1).
 Proof.
-  intros now tz d Htz t. rewrite inst_time_of_civil.
-  rewrite (summary_day_general t (day_number d)) by (unfold tz_ok, t; cbn [off to_local]; lia).
-  unfold t at 2. cbn [off to_local].
-  destruct (Z.ltb_spec tz 0); lia.
+  intros now d Htz. rewrite inst_time_of_civil.
+  rewrite (summary_day_general now (day_number d)) by (unfold tz_ok; lia).
+  destruct (Z.ltb_spec (off now) 0); [reflexivity|lia].
 Qed.
 
-(** non-vacuity: --today 2021/03/14, zones +14h and -12h: the 14th is selected, the 13th and 15th are not *)
+Theorem summary_today_east_of_utc_selects_local_day : forall now d, 0 <= off now < 86400 ->
+  (day_begin now <= inst (time_of_civil d) <= day_end now <-> day_number d = local_day now).
+Proof.
+  intros now d Htz. rewrite inst_time_of_civil.
+  rewrite (summary_day_general now (day_number d)) by (unfold tz_ok; lia).
+  destruct (Z.ltb_spec (off now) 0); lia.
+Qed.
+
+(** the two as [summary today] reaches them: the keyword is the clock value itself, in every world *)
+Corollary summary_today_wall_clock : forall w now toks d,
+  exists t, time_from_string w now toks (b "today") = inr t /\ t = now /\
+    (-86400 < off now < 0 ->
+       (day_begin t <= inst (time_of_civil d) <= day_end t <-> day_number d = local_day now + 1)) /\
+    (0 <= off now < 86400 ->
+       (day_begin t <= inst (time_of_civil d) <= day_end t <-> day_number d = local_day now)).
+Proof.
+  intros w now toks d. exists now. split; [reflexivity|]. split; [reflexivity|]. split.
+  - apply summary_today_west_of_utc_selects_next_day.
+  - apply summary_today_east_of_utc_selects_local_day.
+Qed.
+
+(** non-vacuity of the general window lemma: midnight of 2021/03/14 re-labelled +14h and -12h:
+    the 14th is selected, the 13th and 15th are not *)
 Example summary_plus14 :
   let t := to_local (time_of_civil (2021, 3, 14)) 50400 in
   map (fun d => in_interval (Some (summary_begin t)) (Some (summary_end t)) (time_of_civil (2021, 3, d))) [13; 14; 15]
@@ -151,11 +193,29 @@ Example summary_minus12 :
   map (fun d => in_interval (Some (summary_begin t)) (Some (summary_end t)) (time_of_civil (2021, 3, d))) [13; 14; 15]
   = [false; true; false].
 Proof. vm_compute. reflexivity. Qed.
+(** ... and with an absurd fixed offset (-40h) *)
+Example window_relabelled_minus40h :
+  let t := to_local (time_of_civil (2021, 3, 14)) (-144000) in
+  map (fun d => in_interval (Some (summary_begin t)) (Some (summary_end t)) (time_of_civil (2021, 3, d))) [13; 14; 15]
+  = [false; true; false].
+Proof. vm_compute. reflexivity. Qed.
+(** --today 2021/03/14, [summary today], process zone offsets +30h, -40h and 10^9 s: the 14th and only the 14th *)
+Example summary_today_any_offset :
+  forall tz, In tz [108000; -144000; 1000000000] ->
+  match time_from_string (with_tz (with_zone
+          {| w_fs := []; w_default_config := []; w_tz := 0; w_clock := zero_time;
+             w_or := {| o_resolve := fun l => l; o_day := fun _ l => l; o_flush := fun l => l |};
+             w_sink := None; w_read_fault := [] |} tz zero_time) tz)
+        (time_of_civil (2021, 3, 14)) [Y4; Lit 47%N; M2; Lit 47%N; D2] (b "today") with
+  | inr t => map (fun d => in_interval (Some (summary_begin t)) (Some (summary_end t)) (time_of_civil (2021, 3, d)))
+                 [13; 14; 15]
+  | inl _ => []
+  end = [false; true; false].
+Proof. intros tz [<-|[<-|[<-|[]]]]; vm_compute; reflexivity. Qed.
 (** the finding, concretely: wall clock 2021-03-14 10:00 in a zone at UTC-5 (15:00 UTC), no --today:
     [summary today] shows the record dated 2021/03/15 *)
 Example summary_wall_clock_minus5 :
   let now := {| inst := days_from_civil 2021 3 14 * ns_per_day + 15 * 3600 * ns_per_sec; off := -18000; civ := (2021, 3, 14) |} in
-  let t := to_local now (-18000) in
-  map (fun d => in_interval (Some (summary_begin t)) (Some (summary_end t)) (time_of_civil (2021, 3, d))) [13; 14; 15]
+  map (fun d => in_interval (Some (summary_begin now)) (Some (summary_end now)) (time_of_civil (2021, 3, d))) [13; 14; 15]
   = [false; false; true].
 Proof. vm_compute. reflexivity. Qed.
